@@ -226,6 +226,16 @@ func (p *Queue[T]) Send(ctx context.Context, item T) bool {
 				case p.empty <- struct{}{}:
 				default:
 				}
+				// Pass the wake-up on: the single token in full may stand
+				// for several freed slots, so a sender that got through
+				// re-arms it while free slots remain. A spurious wake-up
+				// is harmless; the woken sender re-checks and parks again.
+				if pos+1-p.tail.Load() < int64(p.capacity) {
+					select {
+					case p.full <- struct{}{}:
+					default:
+					}
+				}
 				return true
 			}
 		} else if diff < 0 {
@@ -297,6 +307,15 @@ func (p *Queue[T]) Recv(ctx context.Context) (T, bool) {
 					select {
 					case p.full <- struct{}{}:
 					default:
+					}
+					// Pass the wake-up on: the single token in empty may
+					// stand for several published items, so a receiver
+					// that got one re-arms it while more remain.
+					if p.head.Load() > pos+1 {
+						select {
+						case p.empty <- struct{}{}:
+						default:
+						}
 					}
 				}
 				return value, true
